@@ -8,7 +8,7 @@ func init() {
 				"zoom and layer arguments: every int64; longitude/altitude: every float64 except NaN (exact IEEE); latitude: every real in [-1000,1000] in the relaxed encoding with the acceptance edge decided up to 1e-10 (|lat| <= 85.0511287797 accepted, >= 85.0511287800 refused)",
 				"numeric fields of malformed IDs: zoom fields 0..3, index fields within +-2^36 (+-8 in the quadkey converters) when they are integers at all",
 			},
-			Outside: []string{"latitudes between 85.0511287797 and 85.0511287800 (the accept/refuse edge itself: x1e10 and /1e10 in exact IEEE arithmetic did not finish on any solver)", "the corridor query GetExtendedSpatialIdsWithinRadiusOfLine on proper segments (see C06/C14); its argument checks (negative radius, zooms, nil points) are covered on the degenerate one-point segment, and its clearance-fitting helper's argument checks are covered", "strings with more than 7 fields (the code compares the arity with 4/5 and indexes constants <= 4 only)", "well-formed IDs whose zoom fields are outside 0..35 (the library documents unbounded memory use there)"},
+			Outside:     []string{"latitudes between 85.0511287797 and 85.0511287800 (the accept/refuse edge itself: x1e10 and /1e10 in exact IEEE arithmetic did not finish on any solver)", "the corridor query GetExtendedSpatialIdsWithinRadiusOfLine on proper segments (see C06/C14); its argument checks (negative radius, zooms, nil points) are covered on the degenerate one-point segment, and its clearance-fitting helper's argument checks are covered", "strings with more than 7 fields (the code compares the arity with 4/5 and indexes constants <= 4 only)", "well-formed IDs whose zoom fields are outside 0..35 (the library documents unbounded memory use there)"},
 			Assumptions: []string{"token model of strings (DESIGN §2.3); strconv.ParseInt/Atoi accept exactly the texts the model marks as in-range integers"},
 		},
 		insts: func(tier string) []*Instance {
